@@ -1217,6 +1217,25 @@ func (mgr *Manager) UpdateTag(name string, operation UpdateTagOperation) error {
 			if !ok {
 				return fmt.Errorf("unknown tag %q", name)
 			}
+			if newTag != nil {
+				// check if all referenced tags exist and that none of them references this tag
+				for todo, seen := newTag.referencedTags(), map[string]struct{}{}; len(todo) != 0; {
+					tn := todo[len(todo)-1]
+					todo = todo[:len(todo)-1]
+					if _, ok := seen[tn]; ok {
+						continue
+					}
+					seen[tn] = struct{}{}
+					if tn == name {
+						return errors.New("reference cycle not allowed in tags")
+					}
+					t, ok := mgr.tags[tn]
+					if !ok {
+						return fmt.Errorf("unknown referenced tag %q", tn)
+					}
+					todo = append(todo, t.referencedTags()...)
+				}
+			}
 			if info.color != "" {
 				tag.color = info.color
 			}
